@@ -71,9 +71,16 @@ let () =
       let ge = List.for_all (fun t -> int_of_z t.ThreadModel.th_stack >= int_of_string size) env.ThreadModel.e_started in
       let (all_joined, visible, ok) = lifecycle n (order = "r") in
       let b x = if x then 1 else 0 in
-      Printf.printf "M st=%s created=%d once=%d arg=1 stack_ge=%d depth=%d visible=%d joined=%s || seq=1\n"
+      (* the size the model hands to pthread_attr_setstacksize *)
+      let set_ge = List.exists (function
+          | ThreadModel.CSetStack (_, s) -> int_of_z s >= int_of_string size | _ -> false) env.ThreadModel.e_calls in
+      Printf.printf "M st=%s created=%d once=%d arg=1 set_ge=%d stack_ge=%d depth=%d visible=%d joined=%s || seq=1\n"
         (sname st) (n * List.length env.ThreadModel.e_started) (b (List.length env.ThreadModel.e_started = 1))
-        (b ge) (b ge) (b visible) (if all_joined && ok then "SUCCESS" else "ERROR");
-      Printf.printf "S st=SUCCESS created=%d once=1 arg=1 stack_ge=1 depth=1 visible=1 joined=SUCCESS\n" n
-    | ["U"; _] -> Printf.printf "M consistent=1\nS consistent=1\n"
+        (b set_ge) (b ge) (b ge) (b visible) (if all_joined && ok then "SUCCESS" else "ERROR");
+      Printf.printf "S st=SUCCESS created=%d once=1 arg=1 set_ge=1 stack_ge=1 depth=1 visible=1 joined=SUCCESS\n" n
+    | ["U"; size] ->
+      let (_, env) = create size 0 0 0 in
+      let set_ge = List.exists (function
+          | ThreadModel.CSetStack (_, s) -> int_of_z s >= int_of_string size | _ -> false) env.ThreadModel.e_calls in
+      Printf.printf "M consistent=1 set_ge=%d || seq=1\nS consistent=1 set_ge=1\n" (if set_ge then 1 else 0)
     | _ -> Printf.printf "M ?\nS ?\n")
